@@ -209,7 +209,7 @@ def r4(text, args, label):
 def r18(text, args, label):
     """for mutator in &self.mutators { B }  ->  index loop over the opaque mutator list:
     let mut vf_k = 0; while vf_k < vf_mutators_len(&self.mutators) { let mutator = vf_mutator_at(&self.mutators, vf_k); vf_k += 1; B }
-    (B may `break`; it has no `continue`).  All occurrences."""
+    (B may `break` or `continue`: the index is advanced before B).  All occurrences."""
     n = 0
     while True:
         m = mask(text)
@@ -220,8 +220,7 @@ def r18(text, args, label):
         o = mm.end() - 1
         c = match_close(m, o)
         body = text[o + 1:c]
-        if re.search(r'\bcontinue\b', mask(body)):
-            raise LostAnchor('%s: R18 loop body contains continue' % label)
+        # the index is advanced BEFORE the body, so a `continue` in B goes on with the next mutator exactly as in the for loop
         new = ('let mut vf_k: usize = 0;\n        while vf_k < vf_mutators_len(&self.mutators) {\n'
                '            let %s = vf_mutator_at(&self.mutators, vf_k);\n            vf_k += 1;%s}' % (var, body))
         text = text[:mm.start()] + new + text[c + 1:]
